@@ -411,16 +411,15 @@ class Inliner:
         f = _lookup(self.facts, cal)
         if f is None or f.get("body_raw", f.get("body")) is None:
             return None
-        helper = bool(f.get("internal")) or f.get("access", 0) in (1, 2)
-        getter = False
-        st = ir.stmts(f.get("body_raw", f.get("body")))
-        if len(st) == 1 and st[0].get("k") == "Return" and st[0].get("e") is not None:
-            # a getter or a forwarder: the call *is* the returned expression (arguments are substituted only when that
-            # keeps their evaluation count, see try_expr_inline)
-            getter = True
-        if not (helper or getter):
-            return None
         return f
+
+    def inlinable(self, f, nb):
+        """helper (non-public / internal linkage), or a getter / forwarder: after its own locals were folded, the body
+        is a single returned expression (arguments are substituted only when that keeps their evaluation count)."""
+        if bool(f.get("internal")) or f.get("access", 0) in (1, 2):
+            return True
+        st = ir.stmts(nb)
+        return len(st) == 1 and st[0].get("k") == "Return" and st[0].get("e") is not None
 
     # -- fresh ids
     def fresh(self):
@@ -638,6 +637,16 @@ class Inliner:
             return None
         body = copy.deepcopy(f.get("body_raw", f.get("body")))
         body = self.expand_body(body, stack + (key,), f)
+        # hoisted locals of a small helper are folded into its result first, so that
+        # `const auto used = ..; return limit - used;` is a single returned expression for its callers
+        try:
+            if not hasattr(self, "memo"):
+                self.memo = {}
+            substitute_named_constants(body, self.facts)
+            propagate(body, self.facts, self.memo)
+            fold_constants(body, self.facts.enums)
+        except RecursionError:
+            pass
         self.done[key] = body
         return body
 
@@ -786,7 +795,7 @@ class Inliner:
         if f is None:
             return None
         nb = self.normalised_body(f, stack)
-        if nb is None:
+        if nb is None or not self.inlinable(f, nb):
             return None
         recv = call.get("recv") if call.get("k") == "MCall" else None
         return f["params"], nb, recv, f["qn"], False, f["key"], call.get("args", [])
